@@ -13,6 +13,7 @@ from . import c16
 
 ID = "C12"
 LEVEL = "exploration"
+STUCK_S = 240  # a single case may legitimately take this long (seconds) before the runner calls it stuck
 RULE = (
     "Hypothesis-constructed @constexpr functions (pure Python over numbers, strings and enum members: arithmetic, bit "
     "operations, comparisons, if/else, bounded for/while loops, len/ord/indexing/concatenation of strings, HASH(..), "
